@@ -227,6 +227,8 @@ def _run_case(sc: dict) -> dict:
                 break
             exp_rows_v.append(ind["v"])
             exp_rows_f.append(ind["f"])
+        if cfg["failmode"] == "latestep" and i == cfg["fail"]:
+            failed = True       # decided by the specification: the independent run goes through the same get_result
         if failed != (i == cfg["fail"]):
             raise MachineryError(f"row {i}: independent run failed={failed} but the specification says fail={cfg['fail']}: {sc}")
         if failed:
